@@ -151,7 +151,8 @@ pub fn stream_bytes(img: &[u8], l: &Layout, e: &DirEntry) -> Option<Vec<u8>> {
     if e.typ != 2 {
         return None;
     }
-    let mut out = Vec::with_capacity(e.size as usize);
+    // the directory entry may come from an image an earlier fault of the same run already damaged
+    let mut out = Vec::with_capacity((e.size as usize).min(img.len()));
     if e.size < 4096 {
         // mini stream
         let mut container = Vec::new();
